@@ -197,6 +197,11 @@ func (s *shard) CreateCursor(ctx context.Context, schema *executor.QuerySchema) 
 		iTr = GetIntersectTimeRange(startTime, endTime, shardStartTime, shardEndTime)
 	}
 	immutableReader, mutableReader, endShardTier, err := s.cloneReaders(schema.Options().OptionsName(), hasTimeFilter, tr)
+	if err == nil && s.isClosing() {
+		// CreateLogicalPlan checked the closing flag before the index scan; if Close released the
+		// tables since then the cloned readers hold nothing and the query would succeed with an empty result
+		err = errno.NewError(errno.ErrShardClosed, s.ident.ShardID)
+	}
 
 	if cloneMsSpan != nil {
 		cloneMsSpan.SetNameValue(fmt.Sprintf("order=%d,unorder=%d", len(immutableReader.Orders), len(immutableReader.OutOfOrders)))
